@@ -12,6 +12,7 @@ import ConjureVerif.Model.ErrorM
 import ConjureVerif.Model.EnumUnion
 import ConjureVerif.Model.DoubleOps
 import ConjureVerif.Model.Endpoint
+import ConjureVerif.Model.Call
 /-
 Line-protocol driver.  One operation per input line: `<property> <op> <args…>`; one output line per
 operation.  Imports models only (no Mathlib, no proofs), so it links as a native executable.
@@ -20,14 +21,15 @@ open ConjureVerif
 
 def dispatch (line : String) : String :=
   match line.trimAscii.toString.splitOn " " with
+  | [_, "noop"] => "noop"      -- an oracle-only case: nothing for the model to say
   | "C15" :: rest => SafeLong.handle rest
   | "C07" :: rest => Uri.handle rest
   | "C01" :: rest => WrapIO.handle rest
   | "C05" :: rest => WrapIO.handle rest
   | "C13" :: rest => AnyIO.handle rest
-  | ["C10", "noop"] => "noop"
   | "C10" :: rest => EnumUnion.handle rest
   | "C14" :: rest => DoubleOps.handle rest
+  | "C04" :: rest => Call.handle rest
   | "C19" :: rest => Endpoint.handle rest
   | "C09" :: rest => Endpoint.handle rest
   | "C17" :: rest => ErrorM.handle rest
